@@ -247,8 +247,10 @@ static int write_id_table(const sqfs_xattr_writer_t *xwr,
 		if (err)
 			return err;
 
+		/* a new meta data block was started; it only gets a slot in the
+		   location table if another entry is going to be stored in it */
 		sqfs_meta_writer_get_position(mw, &block, &offset);
-		if (block != locations[i - 1])
+		if (block != locations[i - 1] && blk->next != NULL)
 			locations[i++] = block;
 	}
 
